@@ -41,7 +41,7 @@ from socketio import packet as sio_packet
 for _n in ('engineio.client', 'socketio.client', 'engineio', 'socketio'):
     logging.getLogger(_n).setLevel(logging.CRITICAL)
 
-HANG_S = 20          # only to turn a hang (mutant, harness bug) into a report instead of a stuck check
+HANG_S = 5           # only to turn a hang (mutant, harness bug) into a report instead of a stuck check
 NS_UNIVERSE = ['/', '/a', '/b']
 EVENTS = ['connect', 'connect_error', 'disconnect', '__disconnect_final']
 
@@ -381,6 +381,7 @@ class _GatedTask:
         self.go = threading.Event()
         self.done = threading.Event()
         self.exc = None
+        self.skip = False
         self.target, self.args, self.kwargs = target, args, kwargs
         self.t = threading.Thread(target=self._run, daemon=True)
         self.t.start()
@@ -388,7 +389,8 @@ class _GatedTask:
     def _run(self):
         self.go.wait()
         try:
-            self.target(*self.args, **self.kwargs)
+            if not self.skip:
+                self.target(*self.args, **self.kwargs)
         except BaseException as e:   # noqa
             self.exc = e
         finally:
@@ -397,7 +399,19 @@ class _GatedTask:
             self.world.progress.set()
 
     def join(self, timeout=None):
+        # whoever joins a task that the harness has not released yet would, without the gate, be
+        # waiting for a running thread: let it run
+        if not self.go.is_set():
+            if self in self.world.pending:
+                self.world.pending.remove(self)
+            self.go.set()
         self.t.join(HANG_S if timeout is None else timeout)
+        if self.t.is_alive():
+            self.world.problems.append('effort hangs (join)')
+
+    def cancel(self):
+        self.skip = True
+        self.go.set()
 
 
 class ThreadWorld(BaseWorld):
@@ -558,6 +572,9 @@ class ThreadWorld(BaseWorld):
 
     def close(self):
         _rand_proxy.world = None
+        for t in self.pending:
+            t.cancel()
+        self.pending = []
         try:
             if self.eio in eio_base.connected_clients:
                 eio_base.connected_clients.remove(self.eio)
